@@ -180,6 +180,7 @@ def fill (v : Array String) : String :=
   let coreErr : Option TErr :=
     if core == "coreinternal" then some (.internal 0)
     else if core == "coreunsupported" then some (.unsupported 0) else none
+  if core == "corepanic" then "refpanic" else
   enumerate sp ks fun S s =>
     let o := tessellateImpl S (tol == "tolok") script coreErr s
     (fTrace o.result o.trace, o.st)
@@ -187,6 +188,7 @@ def fill (v : Array String) : String :=
 def stroke (v : Array String) : String :=
   let (sp, c) := readSink ⟨v, 0⟩
   let (mode, c) := c.tok
+  let (refr, c) := c.tok
   let (_, c) := c.tok
   let (n, c) := c.nat
   let (evs, c) := readEvents n c [] []
@@ -196,6 +198,7 @@ def stroke (v : Array String) : String :=
     | _ => evs
   let evs := stampEvents 0 evs
   let (ks, _) := readKs c
+  if refr == "refpanic" then "refpanic" else
   enumerate sp ks fun S s =>
     let o := strokeRun S evs [] s
     let pulled := if mode == "iter" then o.pulled else if mode == "driven" then evs.length else 0
